@@ -302,6 +302,7 @@ func check(verifDir, repo, id, tier, replay string) int {
 	defer os.RemoveAll(scratch)
 
 	if replay != "" {
+		replay, _ = filepath.Abs(replay)
 		return doReplay(bin, scratch, id, replay, knownSigs, meta)
 	}
 
